@@ -19,19 +19,33 @@ ACC = "GeckoTempStructAccessor"
 
 
 def _make_accessor(repo, interp, cls, units):
-    """A temperature accessor built by /repo's own constructor chain on a structure whose
-    units item reads `units`."""
+    """A temperature accessor built by /repo's own constructor chain on a structure whose units item - a real
+    GeckoEnumStructAccessor over real bytes, labelled as most shipped tables label it (F first) - reads `units`
+    (a unit that is neither C nor F: a byte past the label list, which reads 'Unknown'), however it is asked for
+    (.value, ._get_value(), .raw_value)."""
     from ..absint import ClassRef
-    u = Obj(None, {"value": units, "watch": Native(lambda a, k: None)}, name="units-item")
-    u.attrs["_get_value"] = Native(lambda a, k, u=u: u.attrs["value"], "_get_value")   # the unit, however it is asked for
-    st = Obj(None, {"accessors": {"TempUnits": u}, "status_block": b""})
+    labels = ["F", "C"]
+    blk = bytearray(16)
+    blk[8] = labels.index(units) if units in labels else 3
+    st = Obj(None, {"accessors": {}, "status_block": bytes(blk)})
     hook = interp.call_hook
     interp.call_hook = None
     try:
+        u = interp.apply(ClassRef(repo.cls("GeckoEnumStructAccessor")), [st, "TempUnits", 8, 0, list(labels), None, 4, "ALL"], {})
+        st.attrs["accessors"] = {"TempUnits": u}
         obj = interp.apply(ClassRef(cls), [st, "Temp", 0, "ALL"], {})
     finally:
         interp.call_hook = hook
     return obj
+
+
+def _switch_units(obj, units):
+    """the spa reports another unit: the byte behind the units item of _make_accessor's structure changes (no
+    notification is delivered)"""
+    st = obj.attrs["struct"]
+    blk = bytearray(st.attrs["status_block"])
+    blk[8] = ["F", "C"].index(units) if units in ("F", "C") else 3
+    st.attrs["status_block"] = bytes(blk)
 
 
 def unit_sources(repo, fi, depth=0):
@@ -77,7 +91,7 @@ def run_reader(repo, units):
     cls = repo.cls(ACC)
 
     def hook(ip, node, callee, args, kwargs):
-        if isinstance(callee, BoundMethod) and callee.fi.name == "_get_value" and callee.fi.cls.short != ACC:
+        if isinstance(callee, BoundMethod) and callee.fi.name == "_get_value" and getattr(callee.fi.cls, "short", None) != ACC and "Enum" not in getattr(getattr(callee.obj, "cls", None), "short", ""):
             return Affine.var()
         return NotImplemented
 
@@ -92,7 +106,7 @@ def run_writer(repo, method, units):
     got = []
 
     def hook(ip, node, callee, args, kwargs):
-        if isinstance(callee, BoundMethod) and callee.fi.name == method and callee.fi.cls.short != ACC:
+        if isinstance(callee, BoundMethod) and callee.fi.name == method and getattr(callee.fi.cls, "short", None) != ACC:
             got.append(args[0])
             return None
         return NotImplemented
@@ -353,10 +367,23 @@ def temperature_on_real_bytes(ctx, repo, rule):
     gc8 = repo.cls("GeckoConstants")
     KEY8 = repo.fold(gc8.consts["KEY_TEMP_UNITS"], gc8.mod, gc8)
     n8 = 0
-    for unit_bit, unit in ((0, "C"), (1, "F")):
+    # the units item in every shape the shipped tables give it (a whole byte labelled F, C on most platforms; two bits
+    # at bit 2 labelled C, F on inXM): which raw value means Celsius differs between them
+    from ..packs import tables as _tables8
+    T8 = _tables8(repo)
+    shapes8 = {}
+    for stem8, m8 in sorted(T8.modules.items()):
+        i8 = m8.item(KEY8)
+        if i8 is not None:
+            shapes8.setdefault(repr(i8.args[2:]), list(i8.args[2:]))
+    ctx.floor(rule, "shapes of the units item in the shipped tables", len(shapes8), 2)
+    for shape8 in [s_ for _k, s_ in sorted(shapes8.items())]:
+      bitpos8, labels8 = shape8[0], list(shape8[1])
+      sk8 = "".join(labels8) + (f"@bit{bitpos8}" if bitpos8 is not None else "")
+      for unit in ("C", "F"):
         for raw in (0, 1, 670, 671, 719, 32767, 32768, 40000, 65535):
             blk = bytearray(64)
-            blk[13] = 0x04 if unit_bit else 0
+            blk[13] = labels8.index(unit) << (bitpos8 or 0)
             blk[15], blk[16] = raw >> 8, raw & 0xFF
             it8 = Interp(repo, max_depth=12)
             writes = []
@@ -365,7 +392,7 @@ def temperature_on_real_bytes(ctx, repo, rule):
             st8.attrs["async_set_value"] = _N8(lambda a, k, w=writes: w.append(tuple(a)), "async_set_value")
             want = raw / 18.0 if unit == "C" else (raw + 320) / 10.0
             try:
-                units8 = it8.apply(_CR8(repo.cls("GeckoEnumStructAccessor")), [st8, KEY8, 13, 2, ["C", "F"], None, 2, "ALL"], {})
+                units8 = it8.apply(_CR8(repo.cls("GeckoEnumStructAccessor")), [st8, KEY8, 13] + [list(x_) if isinstance(x_, list) else x_ for x_ in shape8], {})
                 temp8 = it8.apply(_CR8(repo.cls(ACC)), [st8, "SetpointG", 15, "ALL"], {})
                 st8.attrs["accessors"] = {KEY8: units8, "SetpointG": temp8}
                 it8.steps = 0
@@ -380,12 +407,12 @@ def temperature_on_real_bytes(ctx, repo, rule):
             n8 += 1
             import math as _m
             # the statement's formula over the reals: a last-place difference (x * 0.1 for x / 10) is not a different temperature
-            ctx.ob(rule, f"{ACC}::presents::{unit}::raw={raw}", isinstance(shown, float) and _m.isclose(shown, want, rel_tol=1e-12, abs_tol=1e-12),
+            ctx.ob(rule, f"{ACC}::presents::{sk8}::{unit}::raw={raw}", isinstance(shown, float) and _m.isclose(shown, want, rel_tol=1e-12, abs_tol=1e-12),
                    f"{ACC} presents the stored word {raw} (unit {unit}) as {shown!r}, expected {want!r} = {'raw/18' if unit == 'C' else '(raw+320)/10'}", repo.own_method(ACC, "_get_value").loc,
                    sample={"rule": rule, "raw": raw, "unit": unit, "presented": str(shown)} if raw in (670, 40000) else None)
-            ctx.ob(rule, f"{ACC}::writes-back::{unit}::raw={raw}", [w[-1] for w in writes] == [raw, raw] and all(w[:2] == (15, 2) for w in writes),
-                   f"writing {want!r} (unit {unit}) through both writers hands {writes} to the device write, expected (15, 2, {raw}) twice", repo.own_method(ACC, "_set_value").loc)
-    ctx.floor(rule, "temperature words on real bytes", n8, 18)
+            ctx.ob(rule, f"{ACC}::writes-back::{sk8}::{unit}::raw={raw}", [w[-1] for w in writes] == [raw, raw] and all(w[:2] == (15, 2) for w in writes),
+                   f"writing {want!r} (unit {unit}, units item labelled {labels8}) through both writers hands {writes} to the device write, expected (15, 2, {raw}) twice", repo.own_method(ACC, "_set_value").loc)
+    ctx.floor(rule, "temperature words on real bytes", n8, 36)
 
 
 def check(ctx):
@@ -536,7 +563,7 @@ def check(ctx):
         got = []
 
         def hook(ip, node, callee, args, kwargs, method=method):
-            if isinstance(callee, BoundMethod) and callee.fi.cls.short != ACC:
+            if isinstance(callee, BoundMethod) and getattr(callee.fi.cls, "short", None) != ACC and "Enum" not in getattr(getattr(callee.obj, "cls", None), "short", ""):
                 if callee.fi.name == "_get_value":
                     return Affine.var()
                 if callee.fi.name == method:
@@ -554,7 +581,7 @@ def check(ctx):
             for u in ("C", "F"):
                 if units_item is None:
                     raise Undecided("temperature accessor does not keep its structure")
-                units_item.attrs["value"] = u
+                _switch_units(obj, u)
                 got.clear()
                 interp.steps = 0
                 r = interp.call(repo.own_method(ACC, method), obj, [None] if method == "_get_value" else [Affine.var()])
@@ -628,3 +655,6 @@ def check(ctx):
     ctx.exhaustive = False
     ctx.assume("int() truncation and float arithmetic are monotone; floats in the source are read as exact decimals")
     ctx.note("NOT decided: 'within one device step' for values the device cannot represent (numerical).")
+    ctx.rule("R13", "a temperature written is a temperature sent, every time: the structures hand every (position, length, word) of an accessor write to the device callback on every path - a short-cut that skips a request equal to the LAST one never learns that the set point was changed at the spa's keypad meanwhile: writing the same temperature again is dropped silently and the item keeps reading the device-side value (C02.R8 write-through borrowed)")
+    from .c02 import write_through as _wt14
+    _wt14(ctx.borrowed("R13", "C02"), repo, "R8")
